@@ -91,9 +91,11 @@ SortIdx(S, Less(_, _)) ==
 \* cleanupUnhealthyReplicas: visit idxs in order, remove unavailable pods up to the budget
 RECURSIVE Cleanup(_, _, _, _, _)
 Cleanup(v, idxs, budget, done, x) ==
-  IF idxs = <<>> \/ done >= budget THEN [v |-> v, done |-> done]
+  IF idxs = <<>> \/ done >= budget THEN [v |-> v, done |-> done, err |-> FALSE]
   ELSE LET i == Head(idxs)
        IN  IF v[i].s = 0 \/ v[i].s = v[i].a THEN Cleanup(v, Tail(idxs), budget, done, x)
+           \* a stale status (more available pods than spec.replicas): "invalid request to scale down", the sync aborts
+           ELSE IF v[i].a > v[i].s THEN [v |-> v, done |-> done, err |-> TRUE]
            ELSE LET c == Min(budget - done, v[i].s - v[i].a)
                 IN  Cleanup(SetSize(v, i, v[i].s - c, x), Tail(idxs), budget, done + c, x)
 
@@ -151,7 +153,7 @@ ScaleVec(x, Code) ==
        [i \in 1..n |-> IF i <= no /\ v0[i].s > 0 THEN SetSize(v0, i, 0, x)[i] ELSE v0[i]]
   ELSE \* proportional scaling of all active ReplicaSets towards spec.replicas
        LET toAdd0 == x.R - SumOver([i \in 1..n |-> v0[i].s], active)
-           cl     == IF toAdd0 < 0 THEN Cleanup(v0, SeqOf(1..no), -toAdd0, 0, x) ELSE [v |-> v0, done |-> 0]
+           cl     == IF toAdd0 < 0 THEN Cleanup(v0, SeqOf(1..no), -toAdd0, 0, x) ELSE [v |-> v0, done |-> 0, err |-> FALSE]
            v1     == cl.v
            toAdd  == toAdd0 + cl.done
            act1   == {i \in 1..n : v1[i].s > 0}
@@ -214,7 +216,7 @@ RollVec(x, Code) ==
             avail  == SumOver([i \in 1..n |-> v1[i].a], actOld \cup {n})
             old1   == SumOver([i \in 1..n |-> v1[i].s], actOld)
             cnt    == Min(avail - minAvail, DownLimit(x, old1, newS))
-        IN  IF avail <= minAvail THEN v1
+        IN  IF cl.err \/ avail <= minAvail THEN v1
             ELSE TakeDown(v1, SortIdx(actOld, LAMBDA i, j : i > j), cnt, 0, x)   \* larger revision first
 
 (***************************************************************************)
@@ -229,6 +231,27 @@ FromVec(x, v, hasNew) ==
 SyncWith(x, Code) ==
   IF Scaling(x) THEN FromVec(x, ScaleVec(x, Code), x.nx)
   ELSE FromVec(x, RollVec(x, Code), TRUE)
+
+\* The same sync BEFORE the ReplicaSet controller has reacted: spec.replicas as written, the statuses as they were
+\* (a status may now show more available pods than spec.replicas: stale)
+RawCanon(r) == IF r.s = 0 THEN Gone ELSE r
+RawFromVec(x, v, hasNew) ==
+  [x EXCEPT !.olds = [i \in 1..NOld(x) |-> RawCanon(v[i])],
+            !.r0   = x.R,
+            !.nx   = hasNew,
+            !.n    = IF hasNew THEN RawCanon(v[NOld(x) + 1]) ELSE Gone]
+SyncRawWith(x, Code) ==
+  IF Scaling(x) THEN RawFromVec(x, ScaleVec(x, Code), x.nx)
+  ELSE RawFromVec(x, RollVec(x, Code), TRUE)
+Stale(x) == \E i \in 1..Len(AllRS(x)) : AllRS(x)[i].a > AllRS(x)[i].s
+\* k back-to-back syncs on stale statuses, then the reaction; defined while every intermediate state is stale and
+\* the size is not being changed (StaleOk), k = 2, 3
+StaleMid(x, k, Code) == IF k = 2 THEN SyncRawWith(x, Code) ELSE SyncRawWith(SyncRawWith(x, Code), Code)
+StaleOk(x, k, Code) ==
+  /\ x.R = x.r0 /\ ~Scaling(x)
+  /\ LET m1 == SyncRawWith(x, Code) IN Stale(m1) /\ ~Scaling(m1)
+  /\ k = 3 => LET m2 == StaleMid(x, 3, Code) IN Stale(m2) /\ ~Scaling(m2)
+SyncStaleWith(x, k, Code) == SyncWith(StaleMid(x, k, Code), Code)
 
 RefSync(x)  == SyncWith(x, FALSE)      \* the reference definition
 CodeSync(x) == SyncWith(x, TRUE)       \* the reference plus the two deviations of the code
